@@ -310,12 +310,18 @@ func NewDB(opts *DBOpts) (*DB, error) {
 
 // FlushAll flushes all tables
 func (db *DB) FlushAll() {
-	db.tablesMutex.Lock()
+	// Don't hold tablesMutex while flushing: a flush that is allowed to sort
+	// (MaxMemoryRatio > 0) takes the same mutex in shouldSort/stopSorting.
+	db.tablesMutex.RLock()
+	tables := make(map[string]*table, len(db.tables))
 	for name, table := range db.tables {
+		tables[name] = table
+	}
+	db.tablesMutex.RUnlock()
+	for name, table := range tables {
 		db.log.Debugf("Force flushing table: %v", name)
 		table.forceFlush()
 	}
-	db.tablesMutex.Unlock()
 	db.log.Debug("Done force flushing tables")
 }
 
